@@ -70,7 +70,7 @@ def _dyadic(v: float) -> bool:
         return False
 
 
-def _cmpchain(left, ops, *rights):  # noqa: ANN001, ANN002, ANN202
+def _cmpchain(left, ops, atoms, *rights):  # noqa: ANN001, ANN002, ANN202
     """Python semantics of a (chained) comparison; records comparisons decided by rounding:
     operands within 1e-9 of each other that are not both small dyadic rationals (exact in every arithmetic)."""
     import operator
@@ -78,9 +78,13 @@ def _cmpchain(left, ops, *rights):  # noqa: ANN001, ANN002, ANN202
     table = {"Lt": operator.lt, "LtE": operator.le, "Gt": operator.gt, "GtE": operator.ge, "Eq": operator.eq, "NotEq": operator.ne}
     res = True
     a = left
-    for op, b in zip(ops, rights):
+    for i, (op, b) in enumerate(zip(ops, rights)):
         try:
-            if abs(a - b) <= 1e-9 * max(1.0, abs(a), abs(b)) and not (_dyadic(a) and _dyadic(b)):
+            # exact only when both operands are plain names / literals with small dyadic values; computed operands
+            # that are (nearly) equal are decided by the order of floating-point operations, which an algebraically
+            # equivalent expression does not preserve
+            exact = atoms[i] and atoms[i + 1] and _dyadic(a) and _dyadic(b)
+            if abs(a - b) <= 1e-9 * max(1.0, abs(a), abs(b)) and not exact:
                 FRAGILE["n"] += 1
         except TypeError:
             pass
@@ -98,7 +102,9 @@ def instrumented_twin(src: str, modname: str) -> dict:
             self.generic_visit(node)
             return ast.Call(
                 func=ast.Name(id="_cmpchain", ctx=ast.Load()),
-                args=[node.left, ast.Tuple(elts=[ast.Constant(type(o).__name__) for o in node.ops], ctx=ast.Load()), *node.comparators],
+                args=[node.left, ast.Tuple(elts=[ast.Constant(type(o).__name__) for o in node.ops], ctx=ast.Load()),
+                      ast.Tuple(elts=[ast.Constant(isinstance(n, (ast.Name, ast.Constant))) for n in [node.left, *node.comparators]], ctx=ast.Load()),
+                      *node.comparators],
                 keywords=[],
             )
 
